@@ -266,7 +266,8 @@ func (s *c04Sim) observe(ev string) {
 	// batch size bound + nothing invented / duplicated so far
 	seen := map[string]int{}
 	for _, c := range calls {
-		for id, fp := range c.Items {
+		for _, id := range sortedKeys(c.Items) {
+			fp := c.Items[id]
 			want, ok := s.sent[id]
 			if !ok {
 				r.Failf("conservation", "invented-item", "batch %d contains item %s that was never offered (%s)", c.N, id, fp)
@@ -301,7 +302,7 @@ func (s *c04Sim) observe(ev string) {
 		err := p.task.Err
 		r.Logf("  p%d request %d returned %s", p.id, p.reqNo, simkit.ShortErr(err))
 		failed := false
-		for id := range p.ids {
+		for _, id := range sortedKeys(p.ids) {
 			bn, ok := seen[id]
 			if !ok {
 				r.Failf("completion", "early", "request %d completed (err=%v) before its item %s was handed to the export function", p.reqNo, err, id)
@@ -392,4 +393,13 @@ var HarnessC04 = simkit.Harness{
 	Real: []string{"exporterhelper.NewLogs/NewTraces/NewMetrics (request types, MergeSplit, sizers)", "queue sender with sending_queue::batch and the legacy WithBatcher path", "default batcher (timer goroutine, flush workers, refCountDone/multiDone)", "in-memory queue with wait_for_result"},
 	Stub: []string{"backend (push function parks until the scheduler answers ok / error)", "producers (tasks calling ConsumeX)"},
 	Rule: "one run = one tape-drawn (signal, sizer, legacy?, min_size, max_size, flush_timeout) accepted by Validate(), generated payloads with unique item ids (0-3 resources x 0-3 scopes x 0-3 metrics x 0-4 items, schema URLs, duplicate resources, occasionally one 1000-byte item) offered by 1-3 concurrent producers, and a schedule of offer / batch answer ok|error / clock advance events; distinct = distinct event-log hash; non-trivial = some batch held >1 item or a max_size was configured",
+}
+
+func sortedKeys(m map[string]string) []string {
+	out := make([]string, 0, len(m))
+	for k := range m {
+		out = append(out, k)
+	}
+	sort.Strings(out)
+	return out
 }
